@@ -277,6 +277,7 @@ pub fn run_families(cfg: &EngineCfg, fams: &[Box<dyn Family>]) -> RunResult {
             procs.push(WorkerProc { child, slot, out_path: out_path.clone(), w, last_idx: w, last_beat: 0, last_change: Instant::now(), segments: vec![out_path], lost_evals: 0, lost_steps: 0, lost_validated: 0 });
         }
         let hang = Duration::from_secs_f64(fam.hang_secs());
+        let mut hangs = 0u32;
         let mut live = procs.len();
         let mut finished = vec![false; procs.len()];
         while live > 0 {
@@ -329,8 +330,15 @@ pub fn run_families(cfg: &EngineCfg, fams: &[Box<dyn Family>]) -> RunResult {
                     res.violations.push((fam.name(), at, Violation { sig, msg: format!("worker died ({how}) while running case {at}; stderr tail: {tail}") }));
                     // restart after the crashing case
                     let next = at + nw;
-                    if next >= n || st.crashes > 200 {
-                        if st.crashes > 200 {
+                    if how.starts_with("hang") {
+                        hangs += 1;
+                    }
+                    // a shard is not restarted once the family has shown many crashes, a few hangs (each costs the
+                    // whole hang bound) or the wall cap is used up: the violations found so far are reported and
+                    // the family counts as incomplete
+                    let give_up = st.crashes > 200 || hangs >= 8 || t_start.elapsed().as_secs_f64() > cfg.wall_cap_s;
+                    if next >= n || give_up {
+                        if next < n && give_up {
                             st.complete = false;
                         }
                         finished[pi] = true;
